@@ -269,6 +269,19 @@ class Tensor:
         self.is_leaf = True
         self._node = None
 
+    def __deepcopy__(self, memo):
+        # torch: graph leaves only; the copy is a new leaf holding a copy of the data (same requires_grad, same class)
+        if id(self) in memo:
+            return memo[id(self)]
+        if not self.is_leaf:
+            raise RuntimeError('Only Tensors created explicitly by the user (graph leaves) support the deepcopy protocol at the moment.')
+        r = Tensor.__new__(type(self))
+        Tensor.__init__(r, self.a.copy(), self.dtype, self.requires_grad)
+        if self.grad is not None:
+            r.grad = self.grad.__deepcopy__(memo)
+        memo[id(self)] = r
+        return r
+
     # -- metadata
     @property
     def shape(self):
